@@ -1,10 +1,245 @@
 import Ldap3V.Driver.Util
+import Ldap3V.Model.Stream
+import Ldap3V.Spec.Stream
+/-
+Line protocol of the stream model (lanes `streams`, `paged`):
+
+  stream.run <obs> <chain> <handle> <query> <page>… | <call>…
+  search.run <handle> <query> <page>…
+  spec.stream.view <chain> <page>…
+
+  <obs>     which ghosts are printed after the outputs: `rs` requests and scrubs, `r` requests, `-` none
+  <chain>   `d` (direct) or a comma list of `e` (EntriesOnly) / `p<size>` (PagedResults)
+  <handle>  c=<rctls>/t=<n|->/o=<n|->     rctls: `none` | `[o<tok>,p<size>:<hex>,…]`
+  <query>   q<tok>:<1|0>                  (filter parses / does not)
+  <page>    `P <recv>…` | `F`             recv: <k><tok>/<uris>/<ctls>  (k = e|r|i; uris `x` = malformed
+            or `[hex,…]`; ctls `[c<tok>,g<tok>:<hex|x>,…]`) | D<rc>/<refs>/<ctls>/<tok> | C | T
+  <call>    n (next) | f (finish) | s (state) | S (start again)
+
+The run is `start` followed by the calls.  Answer: the outputs joined by `;`, then the ghosts.
+-/
+namespace Ldap3V.Driver.StreamD
+open Ldap3V Ldap3V.Stream Ldap3V.Driver
+
+def parseList (s : String) : Option (List String) :=
+  if s.startsWith "[" && s.endsWith "]" then
+    let inner := ((s.drop 1).dropEnd 1).toString
+    if inner == "" then some [] else some (inner.splitOn ",")
+  else none
+
+def showList (l : List String) : String := "[" ++ ",".intercalate l ++ "]"
+
+def parseCtl (s : String) : Option Ctl :=
+  if s.startsWith "c" then (s.drop 1).toString.toNat?.map fun t => ⟨false, none, t⟩
+  else if s.startsWith "g" then
+    match (s.drop 1).toString.splitOn ":" with
+    | [t, ck] =>
+      match t.toNat? with
+      | some t => if ck == "x" then some ⟨true, none, t⟩ else (unhex ck).map fun b => ⟨true, some b, t⟩
+      | none => none
+    | _ => none
+  else none
+
+def showCtl (c : Ctl) : String :=
+  if c.paged then s!"g{c.tok}:" ++ (match c.cookie with | some b => hexOf b | none => "x") else s!"c{c.tok}"
+
+def parseCtls (s : String) : Option (List Ctl) := (parseList s).bind fun l => l.mapM parseCtl
+def showCtls (cs : List Ctl) : String := showList (cs.map showCtl)
+
+def parseHexList (s : String) : Option (List Bytes) := (parseList s).bind fun l => l.mapM unhex
+def showHexList (l : List Bytes) : String := showList (l.map hexOf)
+
+def parseRecv (s : String) : Option Recv :=
+  if s == "C" then some .closed
+  else if s == "T" then some .timeout
+  else if s.startsWith "D" then
+    match (s.drop 1).toString.splitOn "/" with
+    | [rc, refs, ctls, tok] =>
+      match rc.toNat?, parseHexList refs, parseCtls ctls, tok.toNat? with
+      | some rc, some refs, some ctls, some tok => some (.done ⟨rc, refs, ctls, .server tok⟩)
+      | _, _, _, _ => none
+    | _ => none
+  else
+    let kind : Option Kind := if s.startsWith "e" then some .entry else if s.startsWith "r" then some .ref
+      else if s.startsWith "i" then some .inter else none
+    match kind, (s.drop 1).toString.splitOn "/" with
+    | some k, [tok, uris, ctls] =>
+      match tok.toNat?, parseCtls ctls with
+      | some tok, some ctls =>
+        if uris == "x" then some (.item ⟨k, tok, none, ctls⟩)
+        else (parseHexList uris).map fun u => .item ⟨k, tok, some u, ctls⟩
+      | _, _ => none
+    | _, _ => none
+
+/-- pages up to the `|` (or the end); returns the rest -/
+def parsePages : List String → List Page → Option (List Recv) → Option (List Page × List String)
+  | [], acc, cur => some ((acc ++ (match cur with | some l => [Page.script l] | none => [])), [])
+  | "|" :: rest, acc, cur => some ((acc ++ (match cur with | some l => [Page.script l] | none => [])), rest)
+  | "P" :: rest, acc, cur => parsePages rest (acc ++ (match cur with | some l => [Page.script l] | none => [])) (some [])
+  | "F" :: rest, acc, cur => parsePages rest (acc ++ (match cur with | some l => [Page.script l] | none => []) ++ [Page.fail (.op 0)]) none
+  | t :: rest, acc, cur =>
+    match cur, parseRecv t with
+    | some l, some r => parsePages rest acc (some (l ++ [r]))
+    | _, _ => none
+
+def parseRCtl (s : String) : Option RCtl :=
+  if s.startsWith "o" then (s.drop 1).toString.toNat?.map RCtl.other
+  else if s.startsWith "p" then
+    match (s.drop 1).toString.splitOn ":" with
+    | [sz, ck] =>
+      match parseInt sz, unhex ck with
+      | some sz, some ck => some (.paged sz ck)
+      | _, _ => none
+    | _ => none
+  else none
+
+def showRCtl : RCtl → String
+  | .other t => s!"o{t}"
+  | .paged sz ck => s!"p{sz}:{hexOf ck}"
+
+def parseOptN (s : String) : Option (Option Nat) := if s == "-" then some none else s.toNat?.map some
+def showOptN : Option Nat → String
+  | none => "-"
+  | some n => toString n
+
+def parseHandle (s : String) : Option Handle :=
+  match s.splitOn "/" with
+  | [c, t, o] =>
+    if c.startsWith "c=" && t.startsWith "t=" && o.startsWith "o=" then
+      let cs : Option (Option (List RCtl)) :=
+        if (c.drop 2).toString == "none" then some none
+        else ((parseList (c.drop 2).toString).bind fun l => l.mapM parseRCtl).map some
+      match cs, parseOptN (t.drop 2).toString, parseOptN (o.drop 2).toString with
+      | some cs, some t, some o => some ⟨cs, t, o⟩
+      | _, _, _ => none
+    else none
+  | _ => none
+
+def parseQuery (s : String) : Option Query :=
+  if s.startsWith "q" then
+    match (s.drop 1).toString.splitOn ":" with
+    | [t, ok] => t.toNat?.map fun t => ⟨t, ok == "1"⟩
+    | _ => none
+  else none
+
+def parseChain (s : String) : Option (List Adapter) :=
+  if s == "d" then some [] else
+  (s.splitOn ",").mapM fun a =>
+    if a == "e" then some eo
+    else if a.startsWith "p" then (parseInt (a.drop 1).toString).map pr
+    else none
+
+def parseCall (q : Query) (s : String) : Option Call :=
+  if s == "n" then some .next else if s == "f" then some .finish else if s == "s" then some .state
+  else if s == "S" then some (.start q) else none
+
+def showErr : Err → String
+  | .endOfStream => "eos"
+  | .timeout => "timeout"
+  | .adapterInit => "init"
+  | .filterParsing => "filter"
+  | .op _ => "op"
+
+def showKind : Kind → String
+  | .entry => "e"
+  | .ref => "r"
+  | .inter => "i"
+
+def showItem (i : Item) : String := s!"{showKind i.kind}{i.tok}/{showCtls i.ctrls}"
+
+def showText : Text → String
+  | .server t => s!"t{t}"
+  | .userCancelled => "cancelled"
+  | .alreadyFinalized => "finalized"
+
+def showRes (r : Res) : String := s!"{r.rc}/{showHexList r.refs}/{showCtls r.ctrls}/{showText r.text}"
+
+def showState : SState → String
+  | .fresh => "fresh"
+  | .active => "active"
+  | .done => "done"
+  | .closed => "closed"
+  | .error => "error"
+
+def showNext : NextOut → String
+  | .ok (some i) => "some:" ++ showItem i
+  | .ok none => "none"
+  | .err e => "err:" ++ showErr e
+  | .panic => "panic"
+  | .pending => "pending"
+  | .outOfFuel => "fuel"
+
+def showOutput : Output → String
+  | .started .ok => "ok"
+  | .started (.err e) => "err:" ++ showErr e
+  | .item r => showNext r
+  | .result r => "res:" ++ showRes r
+  | .st s => showState s
+
+def showReq (r : Req) : String :=
+  (match r.ctrls with | none => "none" | some cs => showList (cs.map showRCtl)) ++ s!"/o{showOptN r.opts}/q{r.query.tok}"
+
+def showGhosts (obs : String) (s : Stream) : String :=
+  (if obs == "rs" || obs == "r" then " reqs=" ++ "+".intercalate ((s.reqs.filter (·.acked)).map showReq) else "") ++
+  (if obs == "rs" then " scrubs=" ++ showList (s.scrubs.map toString) else "")
+
+def runCmd (arg : String) : String :=
+  match (arg.splitOn " ").filter (· != "") with
+  | obs :: chain :: h :: q :: rest =>
+    match parseChain chain, parseHandle h, parseQuery q, parsePages rest [] none with
+    | some chain, some h, some q, some (pages, calls) =>
+      match calls.mapM (parseCall q) with
+      | some calls =>
+        let m := init chain h pages
+        let cs := Call.start q :: calls
+        ";".intercalate ((run m cs).map showOutput) ++ showGhosts obs (exec m cs).s
+      | none => "bad-request"
+    | _, _, _, _ => "bad-request"
+  | _ => "bad-request"
+
+def showSearch : SearchOut → String
+  | .ok es r => "ok:" ++ showList (es.map showItem) ++ ":" ++ showRes r
+  | .err e => "err:" ++ showErr e
+  | .panic => "panic"
+  | .pending => "pending"
+  | .outOfFuel => "fuel"
+
+def searchCmd (arg : String) : String :=
+  match (arg.splitOn " ").filter (· != "") with
+  | h :: q :: rest =>
+    match parseHandle h, parseQuery q, parsePages rest [] none with
+    | some h, some q, some (pages, []) => showSearch (search h pages q)
+    | _, _, _ => "bad-request"
+  | _ => "bad-request"
+
+def showEnd : Spec.End → String
+  | .done g r => s!"done:{showHexList g}:{showRes r}"
+  | .fail g e => s!"fail:{showHexList g}:{showErr e}"
+  | .pending => "pending"
+  | .panic => "panic"
+
+def showStep (st : Spec.Step) : String := s!"{showHexList st.gain}>{showItem st.item}"
+
+def viewCmd (arg : String) : String :=
+  match (arg.splitOn " ").filter (· != "") with
+  | chain :: rest =>
+    match parseChain chain, parsePages rest [] none with
+    | some chain, some (pages, []) =>
+      let v := Spec.view (chain.map Spec.kindOf) pages
+      showList (v.steps.map showStep) ++ " " ++ showEnd v.ending
+    | _, _ => "bad-request"
+  | _ => "bad-request"
+
+end Ldap3V.Driver.StreamD
+
 namespace Ldap3V.Driver
-open Ldap3V
 
 /-- line-protocol handler for the `Stream` family of commands; `none` = not mine -/
 def handleStream (cmd arg : String) : Option String :=
   match cmd with
+  | "stream.run" => some (StreamD.runCmd arg)
+  | "search.run" => some (StreamD.searchCmd arg)
+  | "spec.stream.view" => some (StreamD.viewCmd arg)
   | _ => none
 
 end Ldap3V.Driver
